@@ -64,13 +64,14 @@ Print Assumptions C03_parent_modified.
 
 (* ================================================================== completeness, one operation issued alone *)
 (* For every configuration (recursive or not, full emitter or not, pinned or repaired reader), every world and
-   every reader/kernel state with an empty kernel queue in which the watch bookkeeping covers the directories
+   every reader/kernel state with an empty kernel queue and no directory IN_MOVED_FROM pending ([pend r = None]:
+   every quiescent state except right after a directory was moved out) in which the watch bookkeeping covers the directories
    the operation touches ([cover]: a directory inside the scope has a kernel watch with the full mask whose
    descriptor maps to its path in _path_for_wd/_wd_for_path, a directory outside has none): what the kernel
    queues, read in one batch, grouped and emitted equals the contract after collapsing adjacent duplicates.
    The entry is written parent ++ "/" ++ name with a valid name. *)
 
-Theorem C03_contract_touch : forall C full w k r, k_queue k = [] ->
+Theorem C03_contract_touch : forall C full w k r, k_queue k = [] -> pend r = None ->
   forall d n w', d <> [] -> last_is_sep d = false -> valid_name n = true ->
   cover C r k (w_fs w) d ->
   apply_op w (Touch (d ++ sep :: n)) = Some w' ->
@@ -79,7 +80,7 @@ Theorem C03_contract_touch : forall C full w k r, k_queue k = [] ->
 Proof. exact contract_touch. Qed.
 Print Assumptions C03_contract_touch.
 
-Theorem C03_contract_write : forall C full w k r, k_queue k = [] ->
+Theorem C03_contract_write : forall C full w k r, k_queue k = [] -> pend r = None ->
   forall d n w', d <> [] -> last_is_sep d = false -> valid_name n = true ->
   cover C r k (w_fs w) d ->
   apply_op w (Write (d ++ sep :: n)) = Some w' ->
@@ -88,7 +89,7 @@ Theorem C03_contract_write : forall C full w k r, k_queue k = [] ->
 Proof. exact contract_write. Qed.
 Print Assumptions C03_contract_write.
 
-Theorem C03_contract_chmod_file : forall C full w k r, k_queue k = [] ->
+Theorem C03_contract_chmod_file : forall C full w k r, k_queue k = [] -> pend r = None ->
   forall d n w', d <> [] -> last_is_sep d = false -> valid_name n = true ->
   cover C r k (w_fs w) d ->
   fisdir (d ++ sep :: n) (w_fs w) = false ->
@@ -100,7 +101,7 @@ Print Assumptions C03_contract_chmod_file.
 
 (* a directory other than the watched root (chmod of the root itself is reported as DirModified(root), which
    neither this contract nor the Python one describes: the root is not "in scope") *)
-Theorem C03_contract_chmod_dir : forall C full w k r, k_queue k = [] ->
+Theorem C03_contract_chmod_dir : forall C full w k r, k_queue k = [] -> pend r = None ->
   forall d n w', d <> [] -> last_is_sep d = false -> valid_name n = true ->
   cover C r k (w_fs w) d -> cover C r k (w_fs w) (d ++ sep :: n) ->
   d ++ sep :: n <> c_root C ->
@@ -111,7 +112,7 @@ Theorem C03_contract_chmod_dir : forall C full w k r, k_queue k = [] ->
 Proof. exact contract_chmod_dir. Qed.
 Print Assumptions C03_contract_chmod_dir.
 
-Theorem C03_contract_unlink : forall C full w k r, k_queue k = [] ->
+Theorem C03_contract_unlink : forall C full w k r, k_queue k = [] -> pend r = None ->
   forall d n w', d <> [] -> last_is_sep d = false -> valid_name n = true ->
   cover C r k (w_fs w) d ->
   apply_op w (Unlink (d ++ sep :: n)) = Some w' ->
@@ -122,7 +123,7 @@ Print Assumptions C03_contract_unlink.
 
 (* mkdir; `has_children p = false`: no entry of the tree lies directly under the not yet existing path
    (part of the well-formedness of a tree) *)
-Theorem C03_contract_mkdir : forall C full w k r, k_queue k = [] ->
+Theorem C03_contract_mkdir : forall C full w k r, k_queue k = [] -> pend r = None ->
   forall d n w', d <> [] -> last_is_sep d = false -> valid_name n = true ->
   cover C r k (w_fs w) d ->
   has_children (d ++ sep :: n) (w_fs w) = false ->
@@ -133,7 +134,7 @@ Proof. exact contract_mkdir. Qed.
 Print Assumptions C03_contract_mkdir.
 
 (* rmdir of a directory other than the watched root (that case is C07_root_deleted) *)
-Theorem C03_contract_rmdir : forall C full w k r, k_queue k = [] ->
+Theorem C03_contract_rmdir : forall C full w k r, k_queue k = [] -> pend r = None ->
   forall d n w', d <> [] -> last_is_sep d = false -> valid_name n = true ->
   cover C r k (w_fs w) d -> cover C r k (w_fs w) (d ++ sep :: n) ->
   d ++ sep :: n <> c_root C ->
@@ -145,7 +146,7 @@ Print Assumptions C03_contract_rmdir.
 
 (* rename of a file: inside the scope, out of it, into it, between two places outside; the target is absent or
    a file that is replaced *)
-Theorem C03_contract_rename_file : forall C full w k r, k_queue k = [] ->
+Theorem C03_contract_rename_file : forall C full w k r, k_queue k = [] -> pend r = None ->
   forall dp np dq nq w',
   dp <> [] -> last_is_sep dp = false -> valid_name np = true ->
   dq <> [] -> last_is_sep dq = false -> valid_name nq = true ->
@@ -162,7 +163,7 @@ Print Assumptions C03_contract_rename_file.
    synthetic moved per descendant in os.walk order, by C14), out of it, into it (created + synthetic created per
    descendant).  Two facts about the tree are hypotheses: os.walk under the new name afterwards finds what it found
    under the old name before, and the names found are valid file names. *)
-Theorem C03_contract_rename_dir_tree : forall C full w k r, k_queue k = [] ->
+Theorem C03_contract_rename_dir_tree : forall C full w k r, k_queue k = [] -> pend r = None ->
   forall dp np dq nq w',
   dp <> [] -> last_is_sep dp = false -> valid_name np = true ->
   dq <> [] -> last_is_sep dq = false -> valid_name nq = true ->
@@ -179,7 +180,7 @@ Print Assumptions C03_contract_rename_dir_tree.
 
 (* The same from well-formedness of the tree: every entry's path is parent ++ "/" ++ valid name, the target does
    not exist and nothing lies under it. *)
-Theorem C03_contract_rename_dir : forall C full w k r, k_queue k = [] ->
+Theorem C03_contract_rename_dir : forall C full w k r, k_queue k = [] -> pend r = None ->
   forall dp np dq nq w',
   dp <> [] -> last_is_sep dp = false -> valid_name np = true ->
   dq <> [] -> last_is_sep dq = false -> valid_name nq = true ->
@@ -196,7 +197,7 @@ Print Assumptions C03_contract_rename_dir.
 
 (* not proved: a directory that replaces an (empty) directory - the victim's IN_ATTRIB / IN_DELETE_SELF / IN_IGNORED
    are read after the reader has re-keyed its tables for the move *)
-Definition C03_contract_rename_dir_replacing_full : Prop := forall C full w k r, k_queue k = [] ->
+Definition C03_contract_rename_dir_replacing_full : Prop := forall C full w k r, k_queue k = [] -> pend r = None ->
   forall dp np dq nq w',
   dp <> [] -> last_is_sep dp = false -> valid_name np = true ->
   dq <> [] -> last_is_sep dq = false -> valid_name nq = true ->
@@ -216,12 +217,13 @@ Definition C03_sound_full : Prop :=
   forall P w s0 h, pc_filter P = None -> c_mask (pc_reader P) = WATCHDOG_ALL ->
     pinit P w = Some s0 -> sound_along P s0 [] h = true.
 
-(* FALSE of the current code (known finding F10): a directory moved out of the tree keeps its kernel watch and its
-   stale in-tree path; `mkdir R/d; drain; mv R/d O/d; drain; touch O/d/g; drain` delivers FileCreated(R/d/g).
-   Holds with all three reader repairs (F1, F9, F14) switched on. *)
+(* FALSE of the code BEFORE the repair of F10 (c_fix_moveout = false; the other three reader repairs F1, F9, F14
+   switched on): a directory moved out of the tree keeps its kernel watch and its stale in-tree path;
+   `mkdir R/d; drain; mv R/d O/d; drain; touch O/d/g; drain` delivers FileCreated(R/d/g). *)
 Theorem C03_sound_refuted_phantom :
   exists P w s0 h, pc_filter P = None /\ c_mask (pc_reader P) = WATCHDOG_ALL /\
     c_fix_ignored (pc_reader P) = true /\ c_fix_movein (pc_reader P) = true /\ c_fix_simulate (pc_reader P) = true /\
+    c_fix_moveout (pc_reader P) = false /\
     pinit P w = Some s0 /\ sound_along P s0 [] h = false.
 Proof. exact sound_refuted_phantom. Qed.
 Print Assumptions C03_sound_refuted_phantom.
